@@ -45,9 +45,27 @@ def hash_compares(f):
     res = []
     for c in f.calls('memcmp'):
         a = [f.expr(o) for o in c.ops]
-        if any(x.endswith('->hash[0]') or x.endswith('->hash') for x in a[:2]) and 'BLOCK_HASH_SIZE' in a[2]:
+        if any(x.endswith('->hash[0]') or x.endswith('->hash') for x in a[:2]):
             res.append(c)
     return res
+
+
+def hash_length_rule(P, rep, rid):
+    """every comparison of a computed hash with a block's recorded hash covers exactly the configured hash size (BLOCK_HASH_SIZE):
+    a constant length (sizeof of the 16-byte buffer) compares bytes the content file never recorded when `hashsize` is smaller"""
+    rep.rule(rid, 'every memcmp against block->hash uses the run-time hash size BLOCK_HASH_SIZE as its length (check, scrub, sync, import, search, dup excluded)', 8)
+    n = 0
+    for f in P.defined():
+        if not (f.file or '').startswith('cmdline/') or (f.file or '').endswith('dup.c'):
+            continue
+        for c in hash_compares(f):
+            n += 1
+            ln = f.expr(c.ops[2])
+            ok = 'BLOCK_HASH_SIZE' in ln
+            rep.check(ok, rid, '%s: memcmp(%s, %s, %s)' % (base(f.name), f.expr(c.ops[0])[:40], f.expr(c.ops[1])[:40], ln), c.loc(), 'length is the configured hash size' if ok else 'the comparison length is %s, not BLOCK_HASH_SIZE: arrays created with a reduced hashsize compare bytes that were never stored' % ln,
+                      function=base(f.name), construct='hash compare length')
+            rep.analysed(f)
+    return n
 
 
 def parity_compares(f):
@@ -85,6 +103,7 @@ def run(ctx, rep):
 
     memhash_pairing(P, rep, 'R-C04-1p')
     block_size_rule(P, rep, 'R-C04-7')
+    hash_length_rule(P, rep, 'R-C04-1l')
     bypass_rule(P, rep, 'R-C04-1b')
     # coverage of the percentage plans: the derived limits select exactly the quota (a stripe the plan covers is never skipped)
     from .C15 import quota_rule
@@ -228,6 +247,46 @@ def run(ctx, rep):
         rep.check(at_bad == want_bad and at_ref == want_ref and want_ref, 'R-C04-4', 'scrub: every stripe with a silent/io error is marked bad, every clean stripe is refreshed', f.blocks[d][-1].loc(),
                   '%d tuples at the decision; to mark %s; to refresh %s' % (len(T), sorted(at_bad), sorted(at_ref)), function='state_scrub_process', construct='decision exhaustive')
 
+    # sync verifies the blocks it reads: a stripe in which it saw a silent or i/o error (even one it could correct in memory) is marked bad.
+    # Completeness by flag tuples: every tuple with silent/io that reaches the scheduling of the parity write has passed the bad mark.
+    rep.rule('R-C04-4s', 'sync: every stripe with a silent or i/o error is marked bad before its parity write is scheduled (all flag tuples)', 1)
+    Ls = StripeLoop(P, 'state_sync_process')
+    gs_ = Ls.f
+    bads_ = list(gs_.calls('info_set_bad'))
+    wp = Ls.slot_calls('io_write_preset')
+    if len(wp) != 1:
+        raise AnalysisBroken('state_sync_process: io_write_preset call not found')
+    keyf = lambda t: (t['error_on_this_block'], t['silent_error_on_this_block'], t['io_error_on_this_block'], t['fixed_error_on_this_block'])
+    at_bad_ = set()
+    for b_ in bads_:
+        at_bad_ |= {keyf(t) for t in Ls.fa.at(b_)}
+    want_ = {keyf(t) for t in Ls.fa.at(wp[0]) if t['silent_error_on_this_block'] == 1 or t['io_error_on_this_block'] == 1}
+    miss_ = sorted(want_ - at_bad_)
+    rep.check(bool(bads_) and bool(want_) and not miss_, 'R-C04-4s', 'state_sync_process: silent / io error implies bad mark', bads_[0].loc() if bads_ else gs_.file,
+              '%d flag tuples with an error, all pass the mark' % len(want_) if not miss_ else 'stripes with (error, silent, io, fixed) = %s reach the parity write without being marked bad: status and scrub -p bad / fix -e never see them' % miss_,
+              function='state_sync_process', construct='sync bad mark completeness')
+    # a hash recomputed with the new kind during a migration is stored back only for a stripe whose info is refreshed in the same
+    # iteration (rehash bit cleared): at the store no error flag may be set
+    rep.rule('R-C04-8', 'rehash store-back (block->hash <- rehandle[].hash) only on paths where the stripe is verified clean (error = silent = io = 0), in scrub and in sync', 2)
+    for fn_, LL in (('state_scrub_process', L), ('state_sync_process', Ls)):
+        gg = LL.f
+        sts = [m_ for m_ in gg.calls() if m_.callee and m_.callee.startswith('llvm.memcpy') and 'rehandle' in gg.expr(m_.ops[1]) and gg.expr(m_.ops[0]).endswith('->hash[0]')]
+        if not sts:
+            # the store-back may live in a static helper called from the engine: then the call site is judged
+            for c_ in gg.calls():
+                h_ = P.functions.get(c_.callee_full) if c_.callee_full else None
+                if h_ is not None and not h_.decl and h_.internal and any(m_.callee and m_.callee.startswith('llvm.memcpy') and 'rehandle' in h_.expr(m_.ops[1]) for m_ in h_.calls()):
+                    sts.append(c_)
+        if not sts:
+            raise AnalysisBroken('%s: rehash store-back not found' % fn_)
+        badt = []
+        for m_ in sts:
+            for t in LL.fa.at(m_):
+                if t['error_on_this_block'] != 0 or t['silent_error_on_this_block'] != 0 or t['io_error_on_this_block'] != 0:
+                    badt.append((t['error_on_this_block'], t['silent_error_on_this_block'], t['io_error_on_this_block']))
+        rep.check(not badt, 'R-C04-8', '%s: new-kind hashes stored only for verified stripes' % fn_, sts[0].loc(),
+                  'all tuples at the store have error = silent = io = 0' if not badt else 'stored also with (error, silent, io) = %s: the stripe keeps its rehash flag (it is marked bad, not refreshed) while its blocks already carry new-kind hashes, so every block of it mismatches afterwards' % sorted(set(badt)),
+                  function=fn_, construct='rehash store-back')
     # the bad mark must preserve every other field of the info word (time, rehash, justsynced): only `info | bad-bit` does
     rep.rule('R-C04-4p', 'bad marks preserve the stripe info: info_set(pos, info_set_bad(info_get(pos))) and info_set_bad only ORs a constant', 3)
     isb = P.fn('info_set_bad')
